@@ -10,6 +10,12 @@ PROPS = {
         harness=[dict(bin="h-set")],
         trusted=[GO_TRUST % "h-set", "Go's conversion BitSet[T](item) zero-extends (language spec)"],
         assumptions=["flags enter the model already zero-extended to 64 bits (theorem mem_ofFlag covers every width <= 64)"],
+        level_text="Machine-checked Lean 4 theorems (kernel-only axioms) over a BitVec 64 model that mirrors bit_set.go statement by statement: union/difference/intersection/subset characterisations, change flag <-> value changed, multi-argument = sequential, for every set, every flag list and every flag width. The model is tied to /repo by executing model and implementation on all 65536 (set,flag) pairs of an 8-bit flag type (all triples in the thorough tier) plus random wide calls and sequences.",
+        level_note="Trusted: Lean kernel + propext/Quot.sound/Classical.choice as reported by #print axioms; the Go harness and Lean driver; Go's integer conversion semantics. The theorem is about the model; the exhaustive 8-bit correspondence and random 16/32/64-bit runs are what tie it to the code.",
+        technique="Lean 4 proof (induction over flag lists, bitwise extensionality) + exhaustive model/implementation correspondence",
         explanation="theorems over all BitVec 64 sets and all flag lists; correspondence exhaustive on the 8-bit flag type",
     ),
 }
+
+# properties not claimed, with the reason (kept current; see DESIGN.md)
+NOT_CLAIMED = {}
